@@ -1,11 +1,11 @@
 """C14: SOLReader2 is total and memory-safe on arbitrary files (ASan + full UBSan + handler-side monitor)."""
 import json, os
-from . import build, run
+from . import build, run, fuzz
 
 RULE = ("seeded generator of valid text / CRLF-text / binary .sol files (own encoders) x 0-4 byte/field/line-level mutations "
         "(truncation, hostile counts and suffix headers, long lines, NULs, duplicated/deleted chunks) x declared sizes {0, smaller, "
         "equal, larger} x handler policy {drain all, some, none}; one mp::ReadSOLFile call per case under ASan+UBSan; non-trivial = "
-        "the reader got past the message block (any vector/objno/suffix callback or a non-open error); distinct = distinct (format, "
+        "the reader got past the message block (any vector/objno/suffix callback or a non-open error); then a coverage-guided libFuzzer stage (clang, ASan+UBSan, same handler-side monitor) seeded with 600 generated files; distinct = distinct (format, "
         "mutation kinds, policy, return code, #suffixes) signatures")
 
 
@@ -13,8 +13,12 @@ def builds():
     return dict(full=build.build('asanfull', 'solread_mon', ['solread_mon.cc'], lib=False, repo_srcs=['nl-writer2/src/nl-utils.cc']))
 
 
+def fuzz_build():
+    return build.build('fuzz', 'fuzz_sol', ['fuzz_sol.cc'], lib=False, repo_srcs=['nl-writer2/src/nl-utils.cc'], link_flags=['-fsanitize=fuzzer'])
+
+
 def prebuild():
-    builds()
+    builds(); fuzz_build()
 
 
 def main(tier, seed):
@@ -50,6 +54,14 @@ def main(tier, seed):
 
     n = ctx.n(100000, 3000000)
     run.run_sharded(exe, ['--dir', wd], n, on_line, on_death, seed, timeout_per_case=5)
+    # ---- coverage-guided tier (clang libFuzzer + ASan/UBSan) on the same monitor, seeded with generated valid and mutated files
+    fexe = fuzz_build()
+    corpus = os.path.join(wd, 'corpus0')
+    import shutil
+    shutil.rmtree(corpus, ignore_errors=True); os.makedirs(corpus)
+    run.run_sharded(exe, ['--dir', wd, '--dump-dir', corpus], 600, lambda j: None, lambda *a: None, seed + 77, timeout_per_case=5, shards=4)
+    fuzz.run_fuzzers(ctx, fexe, corpus, ctx.n(400000, 40000000), seed, wd, max_len=6000, what='mp::ReadSOLFile')
+    shutil.rmtree(corpus, ignore_errors=True)
     ctx.extras.update(return_codes=codes, mutation_kinds=hows,
                       sanitizers='ASan + UBSan(undefined, float-cast-overflow) + _GLIBCXX_ASSERTIONS, halt on first report, one restart per report')
     ctx.assumptions += ['std::bad_alloc for a file-declared gigantic suffix is resource exhaustion, not a memory error (counted)',
